@@ -208,7 +208,12 @@ def r4(ctx, ty, m, disc):
     resets = [w for w in ws if w.value == ('const', 0)]
     incs = [w for w in ws if w.value != ('const', 0)]
     ok = bool(resets) and bool(incs) and bool(pushes)
-    if ok:
+    how = 'last_push := 0 before the child loop; each enqueue is followed by last_push += 1'
+    if not resets and len(ws) == 1 and pushes:
+        # second idiom: last_push := len(frontier) after the enqueues - len(frontier) taken after the pop and before the enqueues
+        ok = _len_difference(b, R, cfg, ws[0], pushes)
+        how = 'last_push := frontier length after the enqueues - frontier length between the pop and the enqueues'
+    elif ok:
         inc_ok = all((w.value[0] == 'field' and w.value[1][0] == 'bin' and w.value[1][1].startswith('Add') and w.value[1][2] == ('field', ('param', 'self'), 'last_push') and w.value[1][3] == ('const', 1)) or
                      (w.value[0] == 'bin' and w.value[1].startswith('Add') and w.value[3] == ('const', 1)) for w in incs)
         reset_dom = all(cfg.dominates(resets[0].bb, p) for p in pushes)
@@ -237,7 +242,7 @@ def r4(ctx, ty, m, disc):
                             some_ret = False
         ok = inc_ok and reset_dom and paired and reset_outside and some_ret
     if ok:
-        ctx.ok('C13.R4', site, 'last_push := 0 before the child loop; each enqueue is followed by last_push += 1', b.span)
+        ctx.ok('C13.R4', site, how, b.span)
     else:
         ctx.bad('C13.R4', site, 'last_push does not count exactly the entries enqueued by this call of next()', b.span)
     # skip_subtree
@@ -252,20 +257,102 @@ def r4(ctx, ty, m, disc):
     enq_end = _end(push_ops[0]) if push_ops else None
     want_set = {op for op in ('Vec::pop', 'VecDeque::pop_back', 'VecDeque::pop_front') if _end(op) == enq_end}
     want = '/'.join(sorted(want_set))
-    hdrs = cfg.loop_headers()
-    rng = [R.call_args(bb)[0] for bb, t in b.calls_to('Iterator::next') if True]
-    rng_ok = any(x[0] == 'agg' and isinstance(x[1], tuple) and x[1][1] == 'Range' and x[2][0] == ('const', 0) and x[2][1] == ('field', ('param', 'self'), 'last_push') for x in rng)
-    if len(pops) == 1 and pops[0][1] in want_set and hdrs and pops[0][0] in cfg.loop_of(hdrs[0]) and rng_ok \
-            and not cfg.reaches(_some_edge(b, cfg, R), hdrs[0], avoid=[pops[0][0]]):
-        ctx.ok('C13.R4', site, 'removes exactly last_push entries from the enqueue end (%s)' % want, b.span)
+    rem = _removal(b, R, cfg, want_set, enq_end)
+    if rem is not None:
+        ctx.ok('C13.R4', site, 'removes exactly last_push entries from the enqueue end (%s)' % (want if rem[0] == 'pop-loop' else 'truncate to len - last_push'), b.span)
     else:
         ctx.bad('C13.R4', site, 'skip_subtree must remove exactly last_push entries from the end where next() enqueues (%s)' % want, b.span)
     ws = [w for w in assigns(b, R) if w.target == ('field', ('param', 'self'), 'last_push')]
     site = '%s::skip_subtree#reset' % ty
-    if any(w.value == ('const', 0) and hdrs and w.bb not in cfg.loop_of(hdrs[0]) and cfg.dominates(hdrs[0], w.bb) and cfg.postdominates(w.bb, hdrs[0]) for w in ws):
+    if rem is not None and any(w.value == ('const', 0) and _after(cfg, rem, w.bb) and cfg.postdominates(w.bb, rem[1]) for w in ws):
         ctx.ok('C13.R4', site, 'last_push := 0 after the removals: a repeated skip is a no-op', b.span)
     else:
         ctx.bad('C13.R4', site, 'last_push is not reset after skipping: a second skip_subtree drops unrelated frontier entries', b.span)
+
+
+def _after(cfg, rem, bb):
+    """bb executes after the removal is complete"""
+    kind, point, loop = rem
+    if kind == 'pop-loop':
+        return bb not in loop and cfg.dominates(point, bb)
+    return bb != point and cfg.dominates(point, bb)
+
+
+def _removal(b, R, cfg, want_set, enq_end):
+    """How skip_subtree removes the last_push newest entries: ('pop-loop', loop header, loop blocks) for `for _ in 0..last_push { pop }`,
+    ('truncate', call block, ()) for `truncate(len - last_push)` (only when entries are enqueued at the back); None if neither form is recognised."""
+    LP = ('field', ('param', 'self'), 'last_push')
+    pops = [(bb, Callee(t['func']).short, R.call_args(bb)) for bb, t in b.calls() if Callee(t['func']).name.startswith('pop')]
+    truncs = [(bb, R.call_args(bb)) for bb, t in b.calls() if Callee(t['func']).name == 'truncate']
+    hdrs = cfg.loop_headers()
+    if len(pops) == 1 and not truncs:
+        rng = [R.call_args(bb)[0] for bb, t in b.calls_to('Iterator::next')]
+        rng_ok = any(x[0] == 'agg' and isinstance(x[1], tuple) and x[1][1] == 'Range' and x[2][0] == ('const', 0) and x[2][1] == LP for x in rng)
+        if pops[0][1] in want_set and hdrs and pops[0][0] in cfg.loop_of(hdrs[0]) and rng_ok \
+                and not cfg.reaches(_some_edge(b, cfg, R), hdrs[0], avoid=[pops[0][0]]):
+            return ('pop-loop', hdrs[0], cfg.loop_of(hdrs[0]))
+        return None
+    if len(truncs) == 1 and not pops and not hdrs and enq_end == 'back':
+        bb, a = truncs[0]
+        n = _unchecked(a[1])
+        cont = a[0]
+        ln = None
+        if is_call(n, 'usize::saturating_sub', 'usize::wrapping_sub') and len(n[2]) == 2 and n[2][1] == LP:
+            ln = n[2][0]
+        elif n[0] == 'bin' and n[1] == 'Sub' and n[3] == LP:
+            ln = n[2]
+        if ln is not None and is_call(ln, 'Vec::len', 'VecDeque::len') and s(ln[2][0]) == s(cont) and cfg.dominates(ln[3], bb) and cfg.postdominates(bb, 0):
+            # last_push must not be rewritten between its read and the truncation (it is read in the same straight-line code)
+            return ('truncate', bb, ())
+    return None
+
+
+def _unchecked(e):
+    if e[0] == 'field' and e[2] == '0' and e[1][0] == 'bin' and e[1][1].endswith('WithOverflow'):
+        return ('bin', e[1][1][:-len('WithOverflow')], e[1][2], e[1][3])
+    return e
+
+
+def _len_difference(b, R, cfg, w, pushes):
+    from ..mir import EXIT, edge_literal
+    v = _unchecked(w.value)
+    if not (v[0] == 'bin' and v[1] == 'Sub' and is_call(v[2], 'Vec::len', 'VecDeque::len') and is_call(v[3], 'Vec::len', 'VecDeque::len')):
+        return False
+    after, before = v[2], v[3]
+    cont = R.call_args(pushes[0])[0]
+    if not (s(after[2][0]) == s(cont) and s(before[2][0]) == s(cont)):
+        return False
+    a_bb, b_bb = after[3], before[3]
+    pop_bb = [bb for bb, t in b.calls() if Callee(t['func']).name.startswith('pop')]
+    hdrs = [h for h in cfg.loop_headers() if isinstance(h, int) and pushes[0] in cfg.loop_of(h)]
+    if len(pop_bb) != 1 or not hdrs:
+        return False
+    h = hdrs[0]
+    loop = cfg.loop_of(h)
+    # "before" is taken after the pop and before every enqueue, "after" after the enqueue loop; no other frontier operation in between
+    if not (cfg.dominates(pop_bb[0], b_bb) and b_bb not in loop and all(cfg.dominates(b_bb, p) for p in pushes) and cfg.dominates(b_bb, h)):
+        return False
+    if not (a_bb not in loop and cfg.dominates(h, a_bb) and cfg.postdominates(a_bb, h)):
+        return False
+    other = [bb for bb, t in b.calls() if Callee(t['func']).name in ('push', 'push_back', 'push_front', 'pop', 'pop_back', 'pop_front', 'truncate', 'clear', 'extend', 'insert', 'remove', 'drain')
+             and bb not in pushes and bb not in pop_bb and s(R.call_args(bb)[0]) == s(cont)]
+    if other:
+        return False
+    # every path that returns an item passes the write
+    sw = pop_bb[0]
+    for _ in range(6):
+        tt = b.blocks[sw]['term']
+        if tt['k'] == 'switch':
+            break
+        sw = tt.get('target', sw) if tt.get('target') is not None else sw
+    for e in cfg.edge_nodes(sw):
+        lab = cfg.edge_label[e]
+        if lab == ('sw', (0,)) or lab == ('sw', (1,)):
+            lit = edge_literal(b, R, sw, lab)
+            if lit and lit[0] == 'is' and set(lit[2]) & {'Continue', 'Some'}:
+                if cfg.reaches(e, EXIT, avoid=[w.bb]):
+                    return False
+    return True
 
 
 def _some_edge(b, cfg, R):
@@ -283,14 +370,19 @@ def r5_skip(ctx, ty, m):
     b = m['skip_subtree']
     R = Resolver(b)
     cfg = b.cfg()
-    hdrs = cfg.loop_headers()
+    nb = m['next']
+    push_ops = [Callee(t['func']).short for bb, t in nb.calls() if Callee(t['func']).name in ('push', 'push_back', 'push_front')]
+    enq_end = _end(push_ops[0]) if push_ops else None
+    want_set = {op for op in ('Vec::pop', 'VecDeque::pop_back', 'VecDeque::pop_front') if _end(op) == enq_end}
+    rem = _removal(b, R, cfg, want_set, enq_end)
     ws = [w for w in assigns(b, R) if w.target == ('field', ('param', 'self'), 'size_lb')]
     site = '%s::skip_subtree#size_lb' % ty
     if not ws:
         ctx.ok('C13.R5', site, 'lower bound untouched by skip (stays valid only if it is 0) — checked: no write', b.span) if False else ctx.bad('C13.R5', site, 'skip_subtree does not lower the lower size bound although it removes items', b.span)
     for w in ws:
         frontier_len = is_call(w.value, 'Vec::len', 'VecDeque::len') or w.value == ('const', 0)
-        after = hdrs and w.bb not in cfg.loop_of(hdrs[0]) and cfg.dominates(hdrs[0], w.bb)
+        # the length itself (not only the store) must be taken after the removal
+        after = rem is not None and _after(cfg, rem, w.bb) and (w.value == ('const', 0) or (frontier_len and _after(cfg, rem, w.value[3])))
         if frontier_len and after:
             ctx.ok('C13.R5', site, 'size_lb := frontier length, computed after the skipped entries were removed', w.span)
         else:
